@@ -80,6 +80,14 @@ type SymStr struct{ B []*term.T }
 
 type TupleV []Value
 
+// ChanV is a buffered channel under the single-schedule model: a FIFO of the values sent
+// and not yet received. Only non-blocking operations are supported.
+type ChanV struct{ C *ChanObj }
+type ChanObj struct {
+	Cap int
+	Q   []Value
+}
+
 type OpaqueV struct {
 	Name string
 	T    types.Type
